@@ -115,7 +115,7 @@ func (x *Exec) staticCall(st *State, c *ssa.Call, fn *ssa.Function, args []Val, 
 		x.applySpec(st, c, target, spec, target.Signature, args, k)
 		return
 	}
-	if len(target.Blocks) > 0 && !e.hasLoops(target) && !x.onStack(st, target) && st.ext().depth < 16 {
+	if len(target.Blocks) > 0 && inlinable(target) && !e.hasLoops(target) && !x.onStack(st, target) && st.ext().depth < 16 {
 		sig := target.Signature
 		x.pushFrame(st, target, args, func(st *State, rs []Val) { k(st, x.resultOf(sig, rs)) })
 		x.runBlock(st, target.Blocks[0], nil)
@@ -771,4 +771,19 @@ func (x *Exec) runPure(st *State, heap map[string]*Term, fn *ssa.Function, args 
 	}
 	delete(stExt, sub)
 	return outs
+}
+
+// inlinable: callees without a contract are inlined only if they belong to the module under
+// verification or to a small set of dependency packages whose code is simple byte twiddling;
+// everything else needs an extern contract.
+func inlinable(fn *ssa.Function) bool {
+	pp := funcPkgPath(fn)
+	if strings.HasPrefix(pp, modulePath) {
+		return true
+	}
+	switch pp {
+	case "encoding/binary", "math", "math/bits":
+		return true
+	}
+	return false
 }
